@@ -486,6 +486,28 @@ def rule_r9(ctx):
     return rr
 
 
+def rule_r10(ctx):
+    """Augmented assignment (reference 7.2.1, data model 3.3.8): `x op= y` calls `x.__iop__(y)`; when
+    that method is missing OR RETURNS NotImplemented, it falls back to `x op y`.  A template that binds
+    whatever the in-place method returns stores NotImplemented: `s = {1, 2}; s &= {1: 0}.keys()`."""
+    rr = RuleResult("C13-R10", "the result of the in-place method is tested for NotImplemented before it is bound")
+    rr.floor = 1
+    reported = False
+    for pr in _aug_paths(ctx).ok_paths():
+        rr.instances += 1
+        names = [t.fields.get("id").value for t in iter_tnodes(pr.result) if t.kind == "Name" and isinstance(t.fields.get("id"), Cst)]
+        if "NotImplemented" in names:
+            rr.ok("AugAssign|NotImplemented")
+        elif not reported:
+            reported = True
+            rr.fail(
+                "C13-R10|AugAssign|NotImplemented-not-handled",
+                "PendingAugAssign._aug_assign_expr: the value returned by the in-place method is bound as it is; an `__iop__` that returns NotImplemented (set.__iand__ with a dict view, a user class declining the operand) must fall back to the binary / reflected operator: `s = {1, 2}; s &= {1: 0}.keys()` leaves s == NotImplemented instead of {1}",
+                what="AugAssign|NotImplemented",
+            )
+    return rr
+
+
 def rule_c07(ctx):
     """The value of an assignment is evaluated once, before the targets; target sub-expressions once,
     in order (instances of C07-R1/R2 for Assign/AnnAssign/AugAssign)."""
@@ -504,4 +526,4 @@ def rule_c07(ctx):
     return rr
 
 
-RULES = [("C07-R1", rule_c07), ("C13-R1", rule_r1), ("C13-R2", rule_r2), ("C13-R3", rule_r3), ("C13-R4", rule_r4), ("C13-R5", rule_r5), ("C13-R6", rule_r6), ("C13-R7", rule_r7), ("C13-R8", rule_r8), ("C13-R9", rule_r9), ("C09-R1", rule_temporaries)]
+RULES = [("C07-R1", rule_c07), ("C13-R1", rule_r1), ("C13-R2", rule_r2), ("C13-R3", rule_r3), ("C13-R4", rule_r4), ("C13-R5", rule_r5), ("C13-R6", rule_r6), ("C13-R7", rule_r7), ("C13-R8", rule_r8), ("C13-R9", rule_r9), ("C13-R10", rule_r10), ("C09-R1", rule_temporaries)]
